@@ -1400,7 +1400,6 @@ class Workflow(Trellis):
             "SELECT i, label FROM node WHERE kind = 'st' AND NOT detached AND "
             "label = substr(?, 1, length(label))"
         )
-        path = Path(path) / ""
         for i, label in self.db.execute(sql, (path,)):
             trees.append(StaticTree(self, i, label))
         if len(trees) > 1:
@@ -2438,10 +2437,9 @@ class Workflow(Trellis):
             Whether `path` is (inside) a static tree, or a directory that contains a
             static tree or a static file.
         """
-        # A) Inside a static tree, or a static tree root itself.
-        # Appending a separator reproduces _find_owning_static_tree's `Path(path) / ""` exactly.
-        probe = path if path.endswith(os.sep) else path + os.sep
-        if any(probe.startswith(label) for label in tree_labels):
+        # A) Inside a static tree, or a static tree root itself (a directory match carries its
+        # trailing separator), by the same test as `_find_owning_static_tree`.
+        if any(path.startswith(label) for label in tree_labels):
             return True
         if not path.endswith(os.sep):
             return False
